@@ -368,7 +368,14 @@ def get_value_by_dot(doc, key, can_generate_array=False):
                 if not can_generate_array:
                     raise KeyError(key_index) from err
                 remaining_key = '.'.join(key_items[key_index:])
-                return [get_value_by_dot(subdoc, remaining_key) for subdoc in result]
+                values = []
+                for subdoc in result:
+                    try:
+                        values.append(get_value_by_dot(subdoc, remaining_key))
+                    except KeyError:
+                        # Elements that do not have the field contribute nothing.
+                        continue
+                return values
 
             try:
                 result = result[int_key]
